@@ -19,7 +19,8 @@ Inductive pvalue :=
 | PGrp (seed base : Z) (items : list Z) (store clone : bool) (tok : nat)
 | PVec (elems : list Z)
 | PTArc (tok : nat)          (* a TYPED CArc<Token> (not erased): clone_fn / drop_fn instantiated for Token in the creating module *)
-| PBox (v : Z).              (* a typed CBox<u64> *)
+| PBox (v : Z)               (* a typed CBox<u64> *)
+| PSBox (v n : Z).           (* a typed CSliceBox<u64> of n elements v, v+1, .. *)
 
 Definition get (p : list pvalue) (h : Z) : pvalue := if h <? 0 then PDead else nth (zn h) p PDead.
 Fixpoint set_at {A} (p : list A) (i : nat) (v : A) : list A :=
@@ -128,6 +129,8 @@ Definition pstep (s : pst) (op : list Z) : pst * list Z * change :=
                        | _ => same fail end
   else if c =? 27 then push (PBox (g 2%nat)) CNew
   else if c =? 28 then match get p h with PBox v => same (out3 1 v (-1)) | _ => same fail end
+  else if c =? 29 then push (PSBox (g 2%nat) (Z.max 0 (g 3%nat))) CNew
+  else if c =? 30 then match get p h with PSBox v n => same (out3 1 (n * v + n * (n - 1) / 2) (-1)) | _ => same fail end
   else if c =? 17 then match get p h with
                        | PDead => same fail
                        | _ => ((set_at p (zn h) PDead, nt), out3 1 0 (-1), CRelease (zn h))
